@@ -33,6 +33,7 @@ pub struct Profile {
     pub p_cross: f64,
     pub p_outer_kinds: f64,
     pub p_modulo: f64,
+    pub p_key_via_agg: f64,
     pub p_unsupported_agg: f64,
     /// Probability of an aggregation over an aggregation grouped by the inner aggregate
     /// (`SELECT t.c, count(*) FROM (SELECT count(*) AS c FROM base GROUP BY key) AS t GROUP BY t.c`).
@@ -62,6 +63,7 @@ impl Profile {
             p_cross: 0.0,
             p_outer_kinds: 0.0,
             p_modulo: 0.03,
+            p_key_via_agg: 0.04,
             p_unsupported_agg: 0.0,
             p_nested_group: 0.0,
             p_multi_dp: 0.0,
@@ -70,7 +72,7 @@ impl Profile {
             "C03" => Profile { p_cross: 0.04, p_outer_kinds: 0.05, p_multi_dp: 0.06, p_shared_cte: 0.05, p_nested_group: 0.03, ..base },
             "C01" => Profile { p_cross: 0.06, p_outer_kinds: 0.06, p_shared_cte: 0.03, p_nested_group: 0.05, ..base },
             "C09" => Profile { p_modulo: 0.12, p_alias_shadow: 0.4, public_keys_only: true, benign_data: true, p_distinct: 0.12, p_row_privacy: 0.15, p_grouped: 0.65, ..base },
-            "C04" => Profile { p_nested_group: 0.08, p_nested: 0.0, need_private_key: true, p_grouped: 1.0, p_outer: 0.0, p_distinct: 0.05, ..base },
+            "C04" => Profile { p_key_via_agg: 0.25, p_nested_group: 0.08, p_nested: 0.0, need_private_key: true, p_grouped: 1.0, p_outer: 0.0, p_distinct: 0.05, ..base },
             "C16" => Profile { benign_data: true, full_catalogue: true, p_public_table: 1.0, p_synthetic: 0.3, ..base },
             "C02" => Profile { p_unsupported_agg: 0.08, p_cross: 0.04, p_outer_kinds: 0.05, p_multi_dp: 0.04, p_nested_group: 0.03, p_shared_cte: 0.08, p_plain: 0.25, p_synthetic: 0.4, p_public_table: 0.5, p_outer: 0.2, ..base },
             _ => base,
@@ -786,7 +788,7 @@ pub fn generate(seed: u64, run: u64, prop: &str) -> Generated {
             let query = QuerySpec {
                 from: vec![FromItem { table: base_name.clone(), alias: a.clone(), on: None, kind: String::new() }],
                 where_: vec![],
-                keys: vec![KeySpec { expr: "t.c".into(), alias: "k0".into(), public_set: None, nullable: false, ambiguous: false, group_expr: None }],
+                keys: vec![KeySpec { expr: "t.c".into(), alias: "k0".into(), public_set: None, nullable: false, ambiguous: false, group_expr: None, select_agg: None }],
                 aggs: vec![AggSpec { f: AggFn::CountStar, distinct: false, arg: String::new(), alias: "a0".into(), scale: 1.0 }],
                 having: None,
                 outer: None,
@@ -912,23 +914,23 @@ pub fn generate(seed: u64, run: u64, prop: &str) -> Generated {
                     // threshold in the middle of the declared range, or exactly on one of its bounds
                     let mid = match rg.weighted(&[6, 2, 2]) { 0 => lo + (hi - lo) / 2.0, 1 => lo, _ => hi };
                     let expr = format!("CASE WHEN {} {} {:?} THEN 'hi' ELSE 'lo' END", q, rg.pick(&[">", ">", "<", ">=", "<="]), mid);
-                    keys.push(KeySpec { expr, alias: format!("k{}", keys.len()), public_set: Some(vec![Cell::Text("hi".into()), Cell::Text("lo".into())]), nullable: false, ambiguous: true, group_expr: None });
+                    keys.push(KeySpec { expr, alias: format!("k{}", keys.len()), public_set: Some(vec![Cell::Text("hi".into()), Cell::Text("lo".into())]), nullable: false, ambiguous: true, group_expr: None, select_agg: None });
                 }
                 continue;
             }
-            keys.push(KeySpec { expr: q.clone(), alias: format!("k{}", keys.len()), public_set: public, nullable: c.optional, ambiguous, group_expr: None });
+            keys.push(KeySpec { expr: q.clone(), alias: format!("k{}", keys.len()), public_set: public, nullable: c.optional, ambiguous, group_expr: None, select_agg: None });
         }
         // sometimes a single private key over a small, non-nullable integer range
         if profile.need_private_key && rg.chance(0.25) {
             if let Some((q, _)) = keyable.iter().find(|(q, c)| matches!(c.ty, ColType::IntRange { lo, hi } if hi - lo <= 8 && hi > lo) && !c.optional && !where_.iter().any(|w| w.contains(q.as_str()))) {
                 keys.clear();
-                keys.push(KeySpec { expr: q.clone(), alias: "k0".into(), public_set: None, nullable: false, ambiguous: false, group_expr: None });
+                keys.push(KeySpec { expr: q.clone(), alias: "k0".into(), public_set: None, nullable: false, ambiguous: false, group_expr: None, select_agg: None });
             }
         }
         if profile.need_private_key && !keys.iter().any(|k| k.public_set.is_none()) {
             if let Some((q, _)) = keyable.iter().find(|(q, c)| public_set_of(&c.ty).is_none() && !in_list_cols.iter().any(|(qq, _)| qq == q)) {
                 if keys.len() >= 2 { keys.pop(); }
-                keys.push(KeySpec { expr: q.clone(), alias: format!("k{}", keys.len()), public_set: None, nullable: false, ambiguous: false, group_expr: None });
+                keys.push(KeySpec { expr: q.clone(), alias: format!("k{}", keys.len()), public_set: None, nullable: false, ambiguous: false, group_expr: None, select_agg: None });
             }
         }
     }
@@ -1064,6 +1066,16 @@ pub fn generate(seed: u64, run: u64, prop: &str) -> Generated {
         }
     }
     let mut query = QuerySpec { from, where_, keys, aggs, having, outer: if cte.is_some() { None } else { outer }, plain: None, cte, raw_sql: None, holders_override: None };
+    // one of several keys output through MAX / MIN of itself instead of a plain projection (own
+    // stream): same values, another path through the compiler's re-projection of the keys
+    let mut rka = Rng::stream(seed, run, "key_via_agg");
+    if rka.chance(profile.p_key_via_agg) && query.keys.len() >= 2 && query.cte.is_none() {
+        let pick = query.keys.iter().rposition(|k| k.public_set.is_none()).unwrap_or(query.keys.len() - 1);
+        if !query.keys[pick].expr.starts_with("CASE") {
+            query.keys[pick].select_agg = Some(rka.pick(&["max", "min"]).to_string());
+            tags.push("key_via_agg".into());
+        }
+    }
     // `%` over a column with a declared value set, as key or inside an aggregate (own stream)
     let mut rmo = Rng::stream(seed, run, "modulo");
     if rmo.chance(profile.p_modulo) && query.cte.is_none() {
